@@ -464,12 +464,30 @@ fn build_abs(d: &AbsDfa, style: usize) -> Result<Automaton, String> {
                 b.set_default_successor(&s, &t);
             }
         }
-        for (j, &(lo, hi)) in d.letters.iter().enumerate() {
-            if Some(d.delta[s][j]) != dflt {
-                b.add_transition(&s, &CharSet::range(lo, hi), &d.delta[s][j]);
+        if style == 3 {
+            // runs of adjacent letters with the same successor are given as ONE interval (the states of one
+            // automaton then cut the alphabet at different places)
+            let mut j = 0;
+            while j < d.letters.len() {
+                let t = d.delta[s][j];
+                let lo = d.letters[j].0;
+                let mut k = j;
+                while k + 1 < d.letters.len() && d.delta[s][k + 1] == t && d.letters[k].1 + 1 == d.letters[k + 1].0 {
+                    k += 1;
+                }
+                if Some(t) != dflt {
+                    b.add_transition(&s, &CharSet::range(lo, d.letters[k].1), &t);
+                }
+                j = k + 1;
+            }
+        } else {
+            for (j, &(lo, hi)) in d.letters.iter().enumerate() {
+                if Some(d.delta[s][j]) != dflt {
+                    b.add_transition(&s, &CharSet::range(lo, hi), &d.delta[s][j]);
+                }
             }
         }
-        if style == 1 {
+        if style == 1 || style == 3 {
             if let Some(t) = dflt {
                 b.set_default_successor(&s, &t);
             }
@@ -618,10 +636,10 @@ pub fn replay_dfa(a: &Args) {
         let lay = Layout::new(nl - 1, &mut rng, k % 5 == 0);
         let letters: Vec<(u32, u32)> = (0..nl).map(|i| (lay.lo(i), lay.hi(i))).collect();
         let d = AbsDfa { n: delta.len(), letters, delta, finals };
-        let style = k % 3;
+        let style = k % 4;
         dfa_records(&d, style, &mut rng, want_min, want_c14, &mut o1, &mut o2);
         if a.thorough() {
-            dfa_records(&d, (style + 1) % 3, &mut rng, want_min, want_c14, &mut o1, &mut o2);
+            dfa_records(&d, (style + 1) % 4, &mut rng, want_min, want_c14, &mut o1, &mut o2);
         }
     }
     let (n1, n2) = (o1.finish(), o2.finish());
@@ -714,7 +732,7 @@ pub fn drive_automata(a: &Args) {
             1 | 2 => random_abs(&mut rng, 14, 2),
             _ => random_abs(&mut rng, 12, 4),
         };
-        dfa_records(&d, k % 3, &mut rng, want_min, want_c14, &mut o1, &mut o2);
+        dfa_records(&d, k % 4, &mut rng, want_min, want_c14, &mut o1, &mut o2);
     }
     // compiled automata
     let fams = crate::regex::families(a, &mut rng);
